@@ -191,12 +191,8 @@ pub fn main(mode: Mode) -> i32 {
             ctx.run_known_reproducers(&p);
             let n = ctx.n(150, 3000);
             ctx.run_search(&p, n, 2600, 0);
-            // merge the bytecode-stream part, if it ran
-            if let Ok(s) = std::fs::read_to_string("/verif/evidence/parts/C18.json") {
-                if let Ok(v) = serde_json::from_str::<Value>(&s) {
-                    ctx.extra.insert("bytecode_streams_part".into(), v["coverage"].clone());
-                }
-            }
+            // merge the bytecode-stream part (binary vbc, run first by ./check)
+            ctx.merge_part("bytecode-streams");
             ctx.require_class("packages/round-trip");
             ctx.require_class("packages/fault:truncate:refused-with-message");
             ctx.finish()
